@@ -401,7 +401,13 @@ func (ro *Roles) whoDeletesJobs(r *Report, rule string) {
 			}
 			if b, ok := c.Call.Value.(*ssa.Builtin); ok && b.Name() == "delete" && strings.HasSuffix(w.AP(c.Call.Args[0]), ".jobsByID") {
 				n++
-				r.Check(fn == ro.Save, rule, FuncName(fn)+": delete from the id index", w.InstrPos(in), "only the retention path of the save function removes jobs", "a job is removed from the id index outside the retention path: an accepted job disappears from the API before retention removes it")
+				inSave := fn == ro.Save
+				if ro.Save != nil {
+					for _, h := range ro.helpersOf(ro.Save) {
+						inSave = inSave || fn == h
+					}
+				}
+				r.Check(inSave, rule, FuncName(fn)+": delete from the id index", w.InstrPos(in), "only the retention path of the save function removes jobs", "a job is removed from the id index outside the retention path: an accepted job disappears from the API before retention removes it")
 			}
 		})
 	}
